@@ -1,8 +1,12 @@
 //! axv — conformance harness binding the TLA+ specification in /verif/spec to the real `ax` code.
 mod bytes;
+mod elfrun;
 mod insn;
 mod interp;
 mod native;
+
+#[global_allocator]
+static GLOBAL: elfrun::Counting = elfrun::Counting;
 
 fn usage() -> ! {
     eprintln!("usage: axv run <scenarios.ndjson> <trace.ndjson> [--skip N]");
@@ -46,6 +50,18 @@ fn main() {
             interp::start_watchdog(5);
             if let Err(e) = bytes::run(&args[2], args[3].parse().unwrap_or(1), args[4].parse().unwrap_or(1), args[5].parse().unwrap_or(0),
                                        args[6].parse().unwrap_or(0), &args[7], &args[8], skip) {
+                eprintln!("axv: io error: {e}");
+                std::process::exit(2);
+            }
+        }
+        "elf" => {
+            // axv elf <cases.ndjson> <out.ndjson> [--skip N]
+            if args.len() < 4 {
+                usage();
+            }
+            let skip = if args.len() >= 6 && args[4] == "--skip" { args[5].parse().unwrap_or(0) } else { 0 };
+            interp::start_watchdog(8);
+            if let Err(e) = elfrun::run(&args[2], &args[3], skip) {
                 eprintln!("axv: io error: {e}");
                 std::process::exit(2);
             }
